@@ -102,6 +102,7 @@ def mc_cfg(scn, family, invariants=("EmitInv",), extra_constants=(), sim=False):
         ("  Population <- NoPopulation" if scn.get("population") is None
          else "  Population = %d" % scn["population"]),
         "  SquaredWeights = %s" % ("TRUE" if scn.get("squared_weights") else "FALSE"),
+        "  Overlaps = %s" % ("TRUE" if scn.get("overlaps") else "FALSE"),
         "  Filter <- MC_Filter",
         "  Scn = %s" % tla_value(scn["name"]),
         "  Family = %s" % tla_value(family),
